@@ -8,7 +8,7 @@
 (* BeffTypes (prim, lit, tpl, arr, tuple, obj, union, inter, ref).         *)
 (* Terms:  [t |-> "util", u |-> name, args |-> <<..>>]                     *)
 (*         [t |-> "keyof", a], [t |-> "index", a, i]                       *)
-(*         [t |-> "cond", a, b, x, y], [t |-> "mapped", keys, v, opt]      *)
+(*         [t |-> "cond", a, b, x, y], [t |-> "mapped", kv, keys, v, opt]     *)
 (*         [t |-> "enumref", n], [t |-> "enummember", n, m]                *)
 (*         [t |-> "typeof", n]                                             *)
 (* Declarations of kind "enum" carry ms = <<[name, v]>>; kind "const"      *)
@@ -21,7 +21,9 @@ Util(u, args) == [t |-> "util", u |-> u, args |-> args]
 KeyOf(a)      == [t |-> "keyof", a |-> a]
 Index(a, i)   == [t |-> "index", a |-> a, i |-> i]
 Cond(a, b, x, y) == [t |-> "cond", a |-> a, b |-> b, x |-> x, y |-> y]
-Mapped(keys, v, opt) == [t |-> "mapped", keys |-> keys, v |-> v, opt |-> opt]
+\* { [kv in keys]opt: v } - the value type may mention the key variable as Param(kv)
+MappedK(kv, keys, v, opt) == [t |-> "mapped", kv |-> kv, keys |-> keys, v |-> v, opt |-> opt]
+Mapped(keys, v, opt) == MappedK("K", keys, v, opt)
 EnumRef(n)    == [t |-> "enumref", n |-> n]
 EnumMember(n, m) == [t |-> "enummember", n |-> n, m |-> m]
 TypeOf(n)     == [t |-> "typeof", n |-> n]
@@ -89,9 +91,11 @@ Ev(T, env) ==
                        : o \in os })
     [] T.t = "cond" -> IF Sub(Ev(T.a, env), Ev(T.b, env), env) THEN Ev(T.x, env) ELSE Ev(T.y, env)
     [] T.t = "mapped" ->
-         LET ks == SetToSeq(KeyLits(T.keys, env)) IN
-         Obj([i \in DOMAIN ks |-> Prop(ks[i], Ev(T.v, env), T.opt)],
-             IF KeyHasString(T.keys, env) THEN <<Ix(TString, IF T.opt THEN AddUndef(Ev(T.v, env)) ELSE Ev(T.v, env))>> ELSE <<>>)
+         \* one property per literal key, the key variable bound to that key's literal type; a string key gives an index signature
+         LET ks == SetToSeq(KeyLits(T.keys, env))
+             Body(kt) == Ev(Subst(T.v, (T.kv :> kt)), env)
+         IN Obj([i \in DOMAIN ks |-> Prop(ks[i], Body(LS(ks[i])), T.opt)],
+                IF KeyHasString(T.keys, env) THEN <<Ix(TString, IF T.opt THEN AddUndef(Body(TString)) ELSE Body(TString))>> ELSE <<>>)
     [] T.t = "enumref" -> LET d == DeclOf(env, T.n) IN MkUnion({Lit(d.ms[i].v) : i \in DOMAIN d.ms})
     [] T.t = "enummember" -> LET d == DeclOf(env, T.n) IN Lit(d.ms[CHOOSE i \in DOMAIN d.ms : d.ms[i].name = T.m].v)
     [] T.t = "typeof" -> DeclOf(env, T.n).cty
